@@ -419,7 +419,14 @@ func accHistories(r *Run, withQueries bool) {
 	}
 }
 
+func runC05Ledger(r *Run) {
+	// proofs as chain clients keep them: every stored element's proof after every applied and reverted block of
+	// generated chains (incl. v1 contracts revised and proven within one block)
+	runLedger(r, "C05")
+}
+
 func runC05(r *Run) {
+	defer runC05Ledger(r)
 	accHistories(r, false)
 	c05Primitives(r)
 }
